@@ -891,7 +891,9 @@ def psqrt(p: dict) -> dict:
     return pmul(_sqrt_rational(c), patom(_root_atom(prim)))
 
 
-def ssqrt(x: Sx) -> Sx:
+def ssqrt(x: Sx, nonneg: bool = False) -> Sx:
+    """sqrt of a real scalar; nonneg=True: the caller knows x >= 0 by
+    construction (sum of squares) and no solver query is spent on it."""
     if x.im:
         raise Unsupported("sqrt of a complex scalar")
     p = x.re
@@ -909,9 +911,10 @@ def ssqrt(x: Sx) -> Sx:
             return Sx(pmul(_sqrt_rational(c), mp))
         return Sx(pmul(_sqrt_rational(c), pneg(mp)))
     # radicand must be non-negative on this path
-    ok = mkbool(Cond("<=", pneg(p)))  # p >= 0
-    if not ok:
-        raise Unsupported("sqrt of a possibly negative symbolic value")
+    if not nonneg:
+        ok = mkbool(Cond("<=", pneg(p)))  # p >= 0
+        if not ok:
+            raise Unsupported("sqrt of a possibly negative symbolic value")
     return Sx(psqrt(p))
 
 
@@ -962,7 +965,7 @@ def spow(b, e):
 
 def sabs(x: Sx) -> Sx:
     if x.im:
-        return ssqrt(x.abs2())
+        return ssqrt(x.abs2(), nonneg=True)
     if p_is_const(x.re):
         return Sx(pconst(abs(p_const_val(x.re))))
     if bool(x >= 0):
@@ -1019,6 +1022,13 @@ def pinv(p: dict) -> dict:
     # general symbolic denominator
     nz = mkbool(Cond("!=", p))
     if not nz:
+        # only a solver-confirmed zero is a real ZeroDivisionError
+        r = EXPLORER.confirm_path() if hasattr(EXPLORER, "confirm_path") else "sat"
+        if r == "unsat":
+            from .explore import PathInfeasible
+            raise PathInfeasible()
+        if r != "sat":
+            raise Unsupported("division by a value the solver could not separate from zero")
         raise ZeroDivisionError("division by a symbolic zero")
     c = _content(p)
     # sign-normalise so that d and -d share one atom
